@@ -267,3 +267,21 @@ let str_case (args : string list) : string =
   | _ -> "?bad-args"
 
 let () = Hashtbl.replace handlers "str" str_case
+
+(* ---- dbus_message_marshal on an unlocked message: msgmarshal <header length> <body length> ---------- *)
+let msgmarshal_case (args : string list) : string =
+  match args with
+  | [hl; bl] ->
+      let mk n v = List.init (int_of_string n) (fun _ -> n_of_int v) in
+      let m = { m_header = { h_data = { d_bytes = mk hl 1; d_alloc = nat_of_int (int_of_string hl + 8) }; h_padding = O };
+                m_body = { d_bytes = mk bl 2; d_alloc = nat_of_int (int_of_string bl + 8) }; m_locked = false } in
+      let (((_, _), n), _) = msg_marshal true no_fail true N0 m in
+      let n = int_of_n n in
+      let show k =
+        let f = if k < n then fail_at (n_of_int k) else no_fail in
+        let (((ok, m'), _), d) = msg_marshal true f true N0 m in
+        Printf.sprintf "f%d|%s|locked=%d" (if k < n then 1 else 0) (if ok then "ok:" ^ junk_hex d else "oom-unchanged") (if m'.m_locked then 1 else 0) in
+      String.concat " ## " (dedupe (List.init (n + 1) show)) ^ " ## end allocs=" ^ string_of_int n
+  | _ -> "?bad-args"
+
+let () = Hashtbl.replace handlers "msgmarshal" msgmarshal_case
